@@ -164,9 +164,14 @@ class _OrbitCorrectionService(_DynamicsServiceBase):
         x_full = np.asarray(payload.x_full, dtype=float)
         half_period = float(payload.half_period)
 
-        self.domain_obj.dynamics.reset()
-        self.domain_obj.dynamics._initial_state = x_full
-        self.domain_obj.dynamics.period = 2.0 * half_period
+        dynamics = self.domain_obj.dynamics
+        dynamics.reset()
+        # The attribute memos are otherwise cleared only by the period setter, which does
+        # nothing when the corrected period equals the one already set.
+        dynamics._trajectory = None
+        dynamics._stability_info = None
+        dynamics._initial_state = x_full
+        dynamics.period = 2.0 * half_period
 
         return payload
 
